@@ -25,7 +25,7 @@ def us(t):
 
 def clock_scenario(policy, runs, line_level=True):
     """runs: list of runs; a run is a list of ('work', s) | ('pause', s) | ('until', 'H:MM')."""
-    sched = detsched.Sched(policy, trace_files=('clock.py',) if line_level else (), max_steps=8000)
+    sched = detsched.Sched(policy, trace_files=('clock.py',) if line_level else (), max_steps=30000)
     world = rtworld.RtWorld(sched, [], tick=TICK)
     events = []
     try:
@@ -90,8 +90,9 @@ def clock_scenario(policy, runs, line_level=True):
             out.append({'e': 'ret_until', 't': us(ev[1])})
         elif ev[0] == 'stop':
             out.append({'e': 'stop', 't': us(ev[1])})
-    if sched.deadlock or sched.exhausted:
-        out.append({'e': 'stuck', 't': us(sched.vtime)})
+    if sched.deadlock:
+        out.append({'e': 'stuck', 't': us(sched.vtime)})        # every thread blocked: a wait that can never return
+    sched.not_judged = bool(sched.exhausted and not sched.deadlock)   # the step budget ran out first: no verdict
     sched.events = out
     return sched
 
@@ -136,12 +137,12 @@ def explore_task(task):
     out = []
     if mode == 'dfs':
         for sched in detsched.explore(lambda pol: clock_scenario(pol, runs, True), 1, budget):
-            out.append(([c[1] for c in sched.choices], sched.events, mode))
+            out.append(([c[1] for c in sched.choices], None if sched.not_judged else sched.events, mode))
     else:
         rng = random.Random(seed)
         for _ in range(budget):
             sched = clock_scenario(detsched.RandomWalk(rng.randrange(2 ** 30), rng.choice([0.1, 0.4, 0.7])), runs, True)
-            out.append(([c[1] for c in sched.choices], sched.events, mode))
+            out.append(([c[1] for c in sched.choices], None if sched.not_judged else sched.events, mode))
     return out
 
 
@@ -223,6 +224,9 @@ def run(report, replay=None):
     with multiprocessing.get_context('fork').Pool(16) as pool:
         for task, results in zip(tasks, pool.map(explore_task, tasks)):
             for schedule, events, mode in results:
+                if events is None:
+                    report.notes['schedules_cut_by_step_budget'] = report.notes.get('schedules_cut_by_step_budget', 0) + 1
+                    continue
                 rid = len(batch)
                 batch.append({'id': rid, 'ev': events})
                 meta[rid] = (task[0], schedule, mode)
